@@ -1,6 +1,6 @@
 (* C08 - Position independence under module relocation (theorem) and stack relocation (theorem for
    every cached rule of both architectures and for walks over rules; oracle for the rest). *)
-From FH Require Import Consts Word X86 A64 Unwinder X86Unw A64Unw ModFacts RelocFacts ShiftFacts.
+From FH Require Import Consts Word X86 A64 Unwinder X86Unw A64Unw ModFacts RelocFacts ShiftFacts ShiftFrame DwarfRow Cfi X86Dwarf DwarfCb Macho MachoCb.
 Open Scope N_scope.
 
 (* [moved d md]: the same module mapped d bytes higher - range and base address moved together,
@@ -82,6 +82,35 @@ Theorem C08_stack_relocated_a64_rule : forall lo hi s,
   aout_rel lo hi s k (aexec ru first rg m) (aexec ru first rg' (shm lo hi s m)).
 Proof. exact aexec_stack_shift. Qed.
 Print Assumptions C08_stack_relocated_a64_rule.
+
+(* one whole unwind_frame call (x86_64): whenever the module's callback answers independently of the registers
+   and the stack - the same well-formed rule, or the same kind of error - the call is equivariant and leaves the
+   SAME cache (nothing that is cached mentions the stack).  That is every call except the two uncacheable
+   evaluations (DWARF rows that do not compress, PE unwind codes). *)
+Theorem C08_stack_relocated_x86_frame : forall lo hi s,
+  2 * DIST <= lo -> lo <= hi -> hi + s + 2 * DIST < W64 ->
+  forall (u : xunwinder) (c : xcache) a rg rg' m,
+  mem_ok lo hi s m -> rrel lo hi s rg rg' -> vok lo hi s rg -> spok lo hi rg ->
+  (forall x r c1, lookup_address a = Ok x -> cache_lookup rule c x (gen _ u) = (Hit rule r, c1) -> rule_wf r = true) ->
+  (forall x md rel, lookup_address a = Ok x -> find_module mdata (mods _ u) x = Ok (Some (md, rel)) ->
+     cb_rel lo hi s (cb_x86 md (negb (is_ra a)) rel rg m) (cb_x86 md (negb (is_ra a)) rel rg' (shm lo hi s m))) ->
+  let o := unwind_frame_x u c a rg m in
+  let o' := unwind_frame_x u c a rg' (shm lo hi s m) in
+  out_rel lo hi s (o_res _ _ o, o_regs _ _ o) (o_res _ _ o', o_regs _ _ o') /\
+  o_cache _ _ o = o_cache _ _ o' /\ o_eff _ _ o = o_eff _ _ o'.
+Proof. exact unwind_frame_x_stack_shift. Qed.
+Print Assumptions C08_stack_relocated_x86_frame.
+
+(* the callback condition holds for modules without data, for every Mach-O entry that does not defer to DWARF,
+   and a DWARF row that compresses gives the same well-formed rule for both states *)
+Check cb_rel_none.
+Check cb_rel_macho.
+Theorem C08_compressible_row_ignores_the_stack : forall f svma first rg rg' m m',
+  (forall rw, row_for_address f svma = Some rw -> translate_x86 rw <> None) ->
+  exists r, with_fde rule regs row_step_x86 uncovered_rule_x86 f svma first rg m = CbRule r /\
+            with_fde rule regs row_step_x86 uncovered_rule_x86 f svma first rg' m' = CbRule r /\ rule_wf r = true.
+Proof. exact with_fde_rel. Qed.
+Print Assumptions C08_compressible_row_ignores_the_stack.
 
 (* the premises are satisfiable by a real-looking two-frame stack moved by 4 GiB *)
 Check shift_premises_hold.
